@@ -14,7 +14,10 @@ package main
 
 import (
 	"context"
+	"encoding/binary"
 	"errors"
+	"fmt"
+	"net"
 	"math/big"
 	"runtime"
 	"strings"
@@ -73,6 +76,34 @@ type roundSpec struct {
 	storeOk bool
 	crash   int // -1 = none; otherwise the process dies after this many visible actions of the round
 	panicAt int // -1 = none; otherwise this handler PANICS instead of returning (fail = panicAt as well)
+	point   byte // 'a': the handler's first node read fails, 'b': its second one (where the real handler has one)
+	kind    byte // error kind of the scripted failure: g generic, t time-out (net.Error), w wrapped time-out,
+	// u "unknown block", n "header not found", c context.DeadlineExceeded
+	branch int // which branch of the chain is the active one in this round (a re-organisation switches it)
+}
+
+type scanTimeout struct{}
+
+func (scanTimeout) Error() string   { return "i/o timeout" }
+func (scanTimeout) Timeout() bool   { return true }
+func (scanTimeout) Temporary() bool { return true }
+
+var _ net.Error = scanTimeout{}
+
+func scriptedErr(kind byte) error {
+	switch kind {
+	case 't':
+		return scanTimeout{}
+	case 'w':
+		return fmt.Errorf("rpc call failed: %w", scanTimeout{})
+	case 'u':
+		return errors.New("unknown block")
+	case 'n':
+		return errors.New("header not found")
+	case 'c':
+		return context.DeadlineExceeded
+	}
+	return errors.New("scripted handler failure")
 }
 
 // parseRounds: `head:fail:store[:crash]` separated by ';'   fail = n|<idx>|p<idx>   store = s|x   crash = <n>
@@ -83,12 +114,25 @@ func parseRounds(s string) []roundSpec {
 	out := []roundSpec{}
 	for _, it := range items(s, ";") {
 		f := strings.Split(it, ":")
-		r := roundSpec{head: f[0], fail: -1, storeOk: true, crash: -1, panicAt: -1}
+		r := roundSpec{head: f[0], fail: -1, storeOk: true, crash: -1, panicAt: -1, point: 'a', kind: 'g'}
+		if hp := strings.Split(f[0], "~"); len(hp) == 3 {
+			r.branch = int(u64(hp[2]))
+		}
 		if len(f) > 1 && strings.HasPrefix(f[1], "p") {
 			r.panicAt = int(u64(f[1][1:]))
 			r.fail = r.panicAt
 		} else if len(f) > 1 && f[1] != "n" {
-			r.fail = int(u64(f[1]))
+			// <idx>[a|b][kind]
+			digits := strings.TrimRight(f[1], "abgtwunc")
+			r.fail = int(u64(digits))
+			rest := f[1][len(digits):]
+			if len(rest) > 0 && (rest[0] == 'a' || rest[0] == 'b') {
+				r.point = rest[0]
+				rest = rest[1:]
+			}
+			if len(rest) > 0 {
+				r.kind = rest[0]
+			}
 		}
 		if len(f) > 2 && f[2] == "x" {
 			r.storeOk = false
@@ -201,8 +245,15 @@ func (e *scanEnv) handle(idx int, s, end *big.Int) error {
 	e.mu.Lock()
 	e.action()
 	o := &e.obs[len(e.obs)-1]
-	o.calls = append(o.calls, itoa(idx)+"."+s.String()+"."+end.String())
-	fail := e.rounds[e.pos].fail == idx
+	endS := "nil"
+	if end != nil {
+		endS = end.String()
+	} else {
+		end = new(big.Int).Set(s)
+	}
+	o.calls = append(o.calls, itoa(idx)+"."+s.String()+"."+endS)
+	fail := e.rounds[e.pos].fail == idx && (e.rounds[e.pos].point == 'a' || !e.hasPointB(idx))
+	kind := e.rounds[e.pos].kind
 	pan := e.rounds[e.pos].panicAt == idx
 	cb := e.onCall
 	e.mu.Unlock()
@@ -219,9 +270,40 @@ func (e *scanEnv) handle(idx int, s, end *big.Int) error {
 		panic("scripted handler panic")
 	}
 	if fail {
-		return errors.New("scripted handler failure")
+		return scriptedErr(kind)
 	}
 	return nil
+}
+
+// hasPointB: does handler idx of this stack make a second node read after the recorded one?
+func (e *scanEnv) hasPointB(idx int) bool {
+	return e.real && (e.kind == "btc" || (e.kind == "sub" && idx == 0))
+}
+
+// failB: the error of the handler's second node read, if this round scripts one (it keeps failing for the whole round)
+func (e *scanEnv) failB(idx int) error {
+	e.mu.Lock()
+	defer e.mu.Unlock()
+	r := e.rounds[e.pos]
+	if r.fail == idx && r.point == 'b' && e.hasPointB(idx) {
+		return scriptedErr(r.kind)
+	}
+	return nil
+}
+
+// note appends an observation that is not a handler invocation of the model (idx 7 = a block that is NOT on the active
+// chain of this round was read)
+func (e *scanEnv) note(call string) {
+	e.mu.Lock()
+	defer e.mu.Unlock()
+	o := &e.obs[len(e.obs)-1]
+	o.calls = append(o.calls, call)
+}
+
+func (e *scanEnv) branchNow() int {
+	e.mu.Lock()
+	defer e.mu.Unlock()
+	return e.rounds[e.pos].branch
 }
 
 // StoreBlock implements the listeners' BlockStorer on top of the real BlockStore.
@@ -252,8 +334,8 @@ func (e *scanEnv) headOf() int64 {
 func (e *scanEnv) confsOf() int64 {
 	e.mu.Lock()
 	defer e.mu.Unlock()
-	f := strings.SplitN(e.rounds[e.pos].head, "~", 2)
-	if len(f) == 2 {
+	f := strings.Split(e.rounds[e.pos].head, "~")
+	if len(f) >= 2 {
 		return i64(f[1])
 	}
 	return 1
@@ -353,20 +435,43 @@ type realBtcNode struct{ e *scanEnv }
 func (n realBtcNode) GetRawTransactionVerbose(*chainhash.Hash) (*btcjson.TxRawResult, error) {
 	return nil, errors.New("unused")
 }
+// block identity: the hash encodes height and branch; a re-organisation changes the branch of the active chain
+func scanBlockHash(h int64, branch int) *chainhash.Hash {
+	var x chainhash.Hash
+	binary.BigEndian.PutUint64(x[0:8], uint64(h))
+	x[8] = byte(branch)
+	x[31] = 1
+	return &x
+}
+
 func (n realBtcNode) GetBlockHash(h int64) (*chainhash.Hash, error) {
 	if err := n.e.handle(0, big.NewInt(h), big.NewInt(h)); err != nil {
 		return nil, err
 	}
-	return &chainhash.Hash{}, nil
+	return scanBlockHash(h, n.e.branchNow()), nil
 }
-func (n realBtcNode) GetBlockVerboseTx(*chainhash.Hash) (*btcjson.GetBlockVerboseTxResult, error) {
-	return &btcjson.GetBlockVerboseTxResult{}, nil
+func (n realBtcNode) GetBlockVerboseTx(hash *chainhash.Hash) (*btcjson.GetBlockVerboseTxResult, error) {
+	h := int64(binary.BigEndian.Uint64(hash[0:8]))
+	br := int(hash[8])
+	if br != n.e.branchNow() {
+		n.e.note("7." + itoa64(h) + "." + itoa64(h)) // a block that is not on the active chain is being read
+	}
+	if err := n.e.failB(0); err != nil {
+		return nil, err
+	}
+	return &btcjson.GetBlockVerboseTxResult{Hash: hash.String(), Height: h, Confirmations: 1,
+		NextHash: scanBlockHash(h+1, br).String()}, nil
 }
 func (n realBtcNode) GetBestBlockHash() (*chainhash.Hash, error) { return &chainhash.Hash{}, nil }
 
 type realSubNode struct{ e *scanEnv }
 
-func (n realSubNode) GetFinalizedHead() (types.Hash, error) { return types.Hash{}, nil }
+func (n realSubNode) GetFinalizedHead() (types.Hash, error) {
+	if err := n.e.failB(0); err != nil {
+		return types.Hash{}, err
+	}
+	return types.Hash{}, nil
+}
 func (n realSubNode) GetBlock(types.Hash) (*types.SignedBlock, error) {
 	return &types.SignedBlock{Block: types.Block{Header: types.Header{Number: 1 << 30}}}, nil
 }
